@@ -53,9 +53,9 @@ theorem sendPong_benign (tok : Bytes) : ∀ x ∈ sendMessage (pongMsg tok), Ben
     subst hx
     exact .sendError
 
-theorem dispatchIncoming_benign (m : Msg) : ∀ x ∈ dispatchIncoming m, Benign x := by
+theorem deliver_benign (m : Msg) : ∀ x ∈ deliver m, Benign x := by
   intro x hx
-  unfold dispatchIncoming at hx
+  unfold deliver dispatchIncoming at hx
   split at hx
   · cases hx
   · split at hx <;> simp only [List.mem_singleton] at hx <;> subst hx
@@ -98,7 +98,7 @@ theorem step_next_benign {c c' : Conn} {o : List Out} (h : step c = .next c' o) 
   · rw [hs] at h
     simp only [Step.next.injEq] at h
     rw [← h.2]
-    exact dispatchIncoming_benign m
+    exact deliver_benign m
 
 /-- a returning iteration of an open connection ends in one of the two stop tails -/
 theorem step_stop_outs {c c' : Conn} {o : List Out} (h : step c = .stop c' o)
@@ -257,7 +257,7 @@ theorem Benign.not_abortWrite {o : Out} (h : Benign o) : o.isAbortWrite = false 
   | response m => rfl
   | sendError => rfl
   | pong tok w hw =>
-    have hl : (pongMsg tok).legal := by intro o ho; cases ho
+    have hl : (pongMsg tok).legal := Msg.legal_of_no_opts rfl
     obtain ⟨hd, _, _⟩ := decodeMessage_of_message hl (serialize_message hw)
     simp [Out.isAbortWrite, hd, pongMsg, codePong, codeAbort]
 
